@@ -248,7 +248,12 @@ def main(argv: list[str] | None = None) -> int:
     validated_shapes: set[str] = set()
     symdb_broken = False
     if uses_symdb:
-        r = subprocess.run([PY, "-m", "vf.validate_symdb"], capture_output=True, text=True, env=child_env(), cwd=ROOT, timeout=1200)
+        # per-run shapes file: checks of several properties (or of a scratch worktree) may run at the same time
+        fd, shapes_path = tempfile.mkstemp(prefix="vfshapes_", suffix=".json")
+        os.close(fd)
+        venv = child_env()
+        venv["VF_SHAPES"] = shapes_path
+        r = subprocess.run([PY, "-m", "vf.validate_symdb"], capture_output=True, text=True, env=venv, cwd=ROOT, timeout=1200)
         print(r.stdout.strip().splitlines()[-1] if r.stdout.strip() else "validate_symdb: no output")
         if r.returncode != 0:
             print(r.stdout[-3000:])
@@ -259,9 +264,13 @@ def main(argv: list[str] | None = None) -> int:
             if not obligations:
                 return HARNESS_ERROR
         try:
-            validated_shapes = set(json.load(open(os.path.join(ROOT, "vf", "symdb_shapes.json"))))
+            validated_shapes = set(json.load(open(shapes_path)))
         except Exception:
             validated_shapes = set()
+        try:
+            os.unlink(shapes_path)
+        except OSError:
+            pass
     # longest first
     obligations.sort(key=lambda o: -o["timeout"])
     results: list[dict] = []
